@@ -16,11 +16,11 @@ json.dump(m,open(d+'/meta.json','w'),indent=1)
 PY
   out=$(python3 tools/confirm_seed.py $d $id 2>&1 | tail -1)
   case "$out" in CONFIRMED*) ;; *) echo "$id NOT CONFIRMED: $out"; echo "| $id | not confirmed | $out |" >> seeded/FIRST_CONTACT_R5.md; continue;; esac
-  verdict() { res=$(GOACHECK=$1 tools/probe.sh seeded/$id/patch.diff $P 2>&1)
+  verdict() { res=$(GOACHECK=$1 PROBE_BASE=$2 tools/probe.sh seeded/$id/patch.diff $P 2>&1)
     rules=$(echo "$res" | grep -E "^(FAIL|UNDECIDED|ANCHOR-LOST)" | awk '{print $3}' | sort -u | tr '\n' ' ')
     if echo "$res" | grep -q "rc=1"; then echo "caught by $rules"; else echo "MISSED"; fi; }
-  v=$(verdict ${R1BIN:-/tmp/wt/goacheck.r5base})
-  if [ -n "$HALF2" ]; then v="$v / after first-half strengthening: $(verdict bin/goacheck)"; fi
+  v=$(verdict ${R1BIN:-/tmp/wt/goacheck.r5base} 63c260c)
+  if [ -n "$HALF2" ]; then v="$v / after first-half strengthening: $(verdict bin/goacheck HEAD)"; fi
   echo "$id $v"
   echo "| $id | $v | $(python3 -c "import json;print(json.load(open('seeded/$id/meta.json'))['summary'][:160].replace('|','/'))") |" >> seeded/FIRST_CONTACT_R5.md
 done
